@@ -42,6 +42,44 @@ package parsers
 //@     (arr(c.resultTokens) == old(arr(c.resultTokens)) || fresh(c.resultTokens)) &&
 //@     (arr(c.variableNames) == old(arr(c.variableNames)) || fresh(c.variableNames))
 //
+// ---- the compiled program is a well-formed reverse-polish program (C03) ---------------------------------------------
+// rpnDepth is the height of the calculation stack after the first n result tokens, or -1 when one of them lacks
+// operands: constants and variables push one value; a function token follows the constant holding its argument count
+// k and replaces count and k arguments by one value; binary operators replace two values by one, unary ones replace
+// one by one (LIKE and NOT LIKE are compiled as binary operators; the evaluator rejects them with an error).
+//@ spec isBin(t int) bool = t == And || t == Or || t == Xor || t == Plus || t == Minus || t == Star || t == Slash || t == Procent || t == Power || t == ShiftLeft || t == ShiftRight || t == Equal || t == NotEqual || t == More || t == Less || t == EqualMore || t == EqualLess || t == In || t == NotIn || t == Element || t == Like || t == NotLike
+//@ spec isUn(t int) bool = t == Not || t == Unary || t == IsNull || t == IsNotNull
+//@ spec depthStep(d int, t int, cnt int) int =
+//@     (t == Constant || t == Variable) ? d + 1 :
+//@     (t == Function ? ((0 <= cnt && cnt < d) ? d - cnt : -1) :
+//@     (isBin(t) ? (d >= 2 ? d - 1 : -1) : (isUn(t) ? (d >= 1 ? d : -1) : d)))
+// the argument count a constant token carries (-1 if token k is not an Integer constant)
+//@ spec cntAt(s seq[*ExpressionToken], ty fmap[int], va fmap[*variants.Variant], vt fmap[int], vv fmap[any], k int) int =
+//@     (k >= 0 && k < len(s) && ty[s[k]] == Constant && vt[va[s[k]]] == variants.Integer) ? vv[va[s[k]]].(int) : -1
+//@ rec rpnDepth(s seq[*ExpressionToken], ty fmap[int], va fmap[*variants.Variant], vt fmap[int], vv fmap[any], n int) int
+//@     decreases n =
+//@     n <= 0 ? 0 : (rpnDepth(s, ty, va, vt, vv, n - 1) < 0 ? -1 :
+//@         depthStep(rpnDepth(s, ty, va, vt, vv, n - 1), ty[s[n-1]], cntAt(s, ty, va, vt, vv, n - 2)))
+//
+// the depth of a prefix does not depend on what follows it
+//@ lemma depthPrefix(s seq[*ExpressionToken], t seq[*ExpressionToken], ty fmap[int], va fmap[*variants.Variant], vt fmap[int], vv fmap[any], n int)
+//@   tags C03
+//@   requires 0 <= n && n <= len(s) && len(s) <= len(t) && (forall j int :: 0 <= j && j < len(s) ==> t[j] == s[j])
+//@   ensures rpnDepth(t, ty, va, vt, vv, n) == rpnDepth(s, ty, va, vt, vv, n)
+//@   decreases n
+//@   induction s, t, ty, va, vt, vv, n - 1
+// a program that runs to the end without underflow does so at every prefix
+//@ lemma depthMono(s seq[*ExpressionToken], ty fmap[int], va fmap[*variants.Variant], vt fmap[int], vv fmap[any], n int, m int)
+//@   tags C03
+//@   requires 0 <= n && n <= m && rpnDepth(s, ty, va, vt, vv, m) >= 0
+//@   ensures rpnDepth(s, ty, va, vt, vv, n) >= 0
+//@   decreases m
+//@   induction s, ty, va, vt, vv, n, m - 1
+//@ spec resDepth(c *ExpressionParser) int = rpnDepth(seq(c.resultTokens), heapof(ExpressionToken, typ), heapof(ExpressionToken, value),
+//@     heapof(variants.Variant, typ), heapof(variants.Variant, value), len(c.resultTokens))
+//@ spec lastCount(c *ExpressionParser) int = cntAt(seq(c.resultTokens), heapof(ExpressionToken, typ), heapof(ExpressionToken, value),
+//@     heapof(variants.Variant, typ), heapof(variants.Variant, value), len(c.resultTokens) - 1)
+//
 //@ func (c *ExpressionParser) hasMoreTokens
 //@   requires c != nil
 //@   ensures result == (c.currentTokenIndex < len(c.initialTokens))
@@ -71,10 +109,13 @@ package parsers
 //@ func (c *ExpressionParser) addTokenToResult
 //@   requires c != nil
 //@   ensures len(c.resultTokens) == old(len(c.resultTokens)) + 1 && fresh(c.resultTokens[len(c.resultTokens) - 1]) &&
-//@       c.resultTokens[len(c.resultTokens) - 1].typ == typ
+//@       c.resultTokens[len(c.resultTokens) - 1].typ == typ && (value != nil ==> c.resultTokens[len(c.resultTokens) - 1].value == value)
 //@   ensures arr(c.resultTokens) == old(arr(c.resultTokens)) || fresh(c.resultTokens)
+//@   ensures[C03] resDepth(c) == (old(resDepth(c)) < 0 ? -1 : depthStep(old(resDepth(c)), typ, old(lastCount(c))))
 //@   assigns c.resultTokens, c.resultTokens[*]
 //@   nopanic
+//@   use depthPrefix(old(seq(c.resultTokens)), seq(c.resultTokens), heapof(ExpressionToken, typ), heapof(ExpressionToken, value),
+//@       heapof(variants.Variant, typ), heapof(variants.Variant, value), old(len(c.resultTokens))) at exit
 //
 // "a stray word in place of IS/NOT" is not accepted: every listed type must match, in order
 //@ func (c *ExpressionParser) matchTokensWithTypes
@@ -193,6 +234,9 @@ package parsers
 
 //@ func (c *ExpressionParser) performSyntaxAnalysis
 //@   requires parserInv(c)
+//@   requires resDepth(c) >= 0
+//@   ensures[C03] resDepth(c) >= 0 && (result == nil ==> resDepth(c) == old(resDepth(c)) + 1)
+//@   opaque rpnDepth
 //@   ensures[C02] (result == nil) == (E0(toks(c), tys(), old(c.currentTokenIndex)) >= 0)
 //@   ensures[C02] result == nil ==> c.currentTokenIndex == E0(toks(c), tys(), old(c.currentTokenIndex))
 //@   ensures[C02,C03] idxInv(c) && sameTokens(c) && errHasCode(result)
@@ -205,10 +249,14 @@ package parsers
 //@   loop 0
 //@     invariant idxInv(c) && sameTokens(c) && c.currentTokenIndex > old(c.currentTokenIndex)
 //@     invariant E0(toks(c), tys(), old(c.currentTokenIndex)) == R0(toks(c), tys(), c.currentTokenIndex)
+//@     invariant resDepth(c) == old(resDepth(c)) + 1
 //@     decreases len(c.initialTokens) - c.currentTokenIndex
 //
 //@ func (c *ExpressionParser) performSyntaxAnalysisAtLevel1
 //@   requires parserInv(c)
+//@   requires resDepth(c) >= 0
+//@   ensures[C03] resDepth(c) >= 0 && (result == nil ==> resDepth(c) == old(resDepth(c)) + 1)
+//@   opaque rpnDepth
 //@   ensures[C02] (result == nil) == (E1(toks(c), tys(), old(c.currentTokenIndex)) >= 0)
 //@   ensures[C02] result == nil ==> c.currentTokenIndex == E1(toks(c), tys(), old(c.currentTokenIndex))
 //@   ensures[C02,C03] idxInv(c) && sameTokens(c) && errHasCode(result)
@@ -221,6 +269,9 @@ package parsers
 //
 //@ func (c *ExpressionParser) performSyntaxAnalysisAtLevel2
 //@   requires parserInv(c)
+//@   requires resDepth(c) >= 0
+//@   ensures[C03] resDepth(c) >= 0 && (result == nil ==> resDepth(c) == old(resDepth(c)) + 1)
+//@   opaque rpnDepth
 //@   ensures[C02] (result == nil) == (E2(toks(c), tys(), old(c.currentTokenIndex)) >= 0)
 //@   ensures[C02] result == nil ==> c.currentTokenIndex == E2(toks(c), tys(), old(c.currentTokenIndex))
 //@   ensures[C02,C03] idxInv(c) && sameTokens(c) && errHasCode(result)
@@ -233,10 +284,14 @@ package parsers
 //@   loop 0
 //@     invariant idxInv(c) && sameTokens(c) && c.currentTokenIndex > old(c.currentTokenIndex)
 //@     invariant E2(toks(c), tys(), old(c.currentTokenIndex)) == R2(toks(c), tys(), c.currentTokenIndex)
+//@     invariant resDepth(c) == old(resDepth(c)) + 1
 //@     decreases len(c.initialTokens) - c.currentTokenIndex
 //
 //@ func (c *ExpressionParser) performSyntaxAnalysisAtLevel3
 //@   requires parserInv(c)
+//@   requires resDepth(c) >= 0
+//@   ensures[C03] resDepth(c) >= 0 && (result == nil ==> resDepth(c) == old(resDepth(c)) + 1)
+//@   opaque rpnDepth
 //@   ensures[C02] (result == nil) == (E3(toks(c), tys(), old(c.currentTokenIndex)) >= 0)
 //@   ensures[C02] result == nil ==> c.currentTokenIndex == E3(toks(c), tys(), old(c.currentTokenIndex))
 //@   ensures[C02,C03] idxInv(c) && sameTokens(c) && errHasCode(result)
@@ -249,10 +304,14 @@ package parsers
 //@   loop 0
 //@     invariant idxInv(c) && sameTokens(c) && c.currentTokenIndex > old(c.currentTokenIndex)
 //@     invariant E3(toks(c), tys(), old(c.currentTokenIndex)) == R3(toks(c), tys(), c.currentTokenIndex)
+//@     invariant resDepth(c) == old(resDepth(c)) + 1
 //@     decreases len(c.initialTokens) - c.currentTokenIndex
 //
 //@ func (c *ExpressionParser) performSyntaxAnalysisAtLevel4
 //@   requires parserInv(c)
+//@   requires resDepth(c) >= 0
+//@   ensures[C03] resDepth(c) >= 0 && (result == nil ==> resDepth(c) == old(resDepth(c)) + 1)
+//@   opaque rpnDepth
 //@   ensures[C02] (result == nil) == (E4(toks(c), tys(), old(c.currentTokenIndex)) >= 0)
 //@   ensures[C02] result == nil ==> c.currentTokenIndex == E4(toks(c), tys(), old(c.currentTokenIndex))
 //@   ensures[C02,C03] idxInv(c) && sameTokens(c) && errHasCode(result)
@@ -265,10 +324,14 @@ package parsers
 //@   loop 0
 //@     invariant idxInv(c) && sameTokens(c) && c.currentTokenIndex > old(c.currentTokenIndex)
 //@     invariant E4(toks(c), tys(), old(c.currentTokenIndex)) == R4(toks(c), tys(), c.currentTokenIndex)
+//@     invariant resDepth(c) == old(resDepth(c)) + 1
 //@     decreases len(c.initialTokens) - c.currentTokenIndex
 //
 //@ func (c *ExpressionParser) performSyntaxAnalysisAtLevel5
 //@   requires parserInv(c)
+//@   requires resDepth(c) >= 0
+//@   ensures[C03] resDepth(c) >= 0 && (result == nil ==> resDepth(c) == old(resDepth(c)) + 1)
+//@   opaque rpnDepth
 //@   ensures[C02] (result == nil) == (E5(toks(c), tys(), old(c.currentTokenIndex)) >= 0)
 //@   ensures[C02] result == nil ==> c.currentTokenIndex == E5(toks(c), tys(), old(c.currentTokenIndex))
 //@   ensures[C02,C03] idxInv(c) && sameTokens(c) && errHasCode(result)
@@ -281,10 +344,14 @@ package parsers
 //@   loop 0
 //@     invariant idxInv(c) && sameTokens(c) && c.currentTokenIndex > old(c.currentTokenIndex)
 //@     invariant E5(toks(c), tys(), old(c.currentTokenIndex)) == R5(toks(c), tys(), c.currentTokenIndex)
+//@     invariant resDepth(c) == old(resDepth(c)) + 1
 //@     decreases len(c.initialTokens) - c.currentTokenIndex
 //
 //@ func (c *ExpressionParser) performSyntaxAnalysisAtLevel6
 //@   requires parserInv(c)
+//@   requires resDepth(c) >= 0
+//@   ensures[C03] resDepth(c) >= 0 && (result == nil ==> resDepth(c) == old(resDepth(c)) + 1)
+//@   opaque rpnDepth
 //@   ensures[C02,slow] (result == nil) == (E6(toks(c), tys(), old(c.currentTokenIndex)) >= 0)
 //@   ensures[C02,slow] result == nil ==> c.currentTokenIndex == E6(toks(c), tys(), old(c.currentTokenIndex))
 //@   ensures[C02,C03] idxInv(c) && sameTokens(c) && errHasCode(result)
@@ -300,10 +367,12 @@ package parsers
 //@   callsite[C02] addTokenToResult requires typ != Element || (c.currentTokenIndex >= 1 && c.initialTokens[c.currentTokenIndex - 1].typ == RightSquareBrace)
 //@   loop 0
 //@     invariant -1 <= rangeindex && rangeindex < len(c.variableNames) && idxInv(c) && sameTokens(c) && c.currentTokenIndex > old(c.currentTokenIndex)
+//@     invariant resDepth(c) == old(resDepth(c))
 //@     decreases len(c.variableNames) - rangeindex
 //@   loop 1
 //@     invariant idxInv(c) && sameTokens(c) && c.currentTokenIndex > old(c.currentTokenIndex) && paramCount >= 0 && paramCount <= c.currentTokenIndex
 //@     invariant c.currentTokenIndex < len(c.initialTokens)
+//@     invariant resDepth(c) == old(resDepth(c)) + paramCount
 //@     invariant PRIM(toks(c), tys(), afterSign(toks(c), tys(), old(c.currentTokenIndex))) == ARGS(toks(c), tys(), c.currentTokenIndex + 1, paramCount > 0 ? 1 : 0)
 //@     invariant afterSign(toks(c), tys(), old(c.currentTokenIndex)) < len(c.initialTokens) && tk(toks(c), tys(), afterSign(toks(c), tys(), old(c.currentTokenIndex))) == Variable && tk(toks(c), tys(), afterSign(toks(c), tys(), old(c.currentTokenIndex)) + 1) == LeftBrace
 //@     decreases len(c.initialTokens) - c.currentTokenIndex
